@@ -219,8 +219,11 @@ def run(mod, tier, seed, replay=None):
         ev = {"property_id": prop, "tier": tier, "seed": int(seed), "level": getattr(mod, "LEVEL", "exploration"),
               "coverage": cov, "assumptions": getattr(mod, "ASSUMPTIONS", []), "wall_s": round(wall, 2),
               "violations": len(unlisted)}
-        os.makedirs(os.path.join(_env.VERIF, "evidence"), exist_ok=True)
-        with open(os.path.join(_env.VERIF, "evidence", prop + ".json"), "w") as fh:
+        # evidence/ only ever describes runs against /repo itself; mutant / seeded runs (VERIF_REPO=<scratch copy>)
+        # write theirs under .runs/
+        evdir = os.path.join(_env.VERIF, "evidence") if _env.REPO == "/repo" else os.path.join(_env.RUNS, "evidence_other_repo")
+        os.makedirs(evdir, exist_ok=True)
+        with open(os.path.join(evdir, prop + ".json"), "w") as fh:
             json.dump(ev, fh, indent=1, sort_keys=True)
 
     # ---- report
